@@ -13,7 +13,7 @@ import itertools
 from decimal import Decimal, localcontext
 from fractions import Fraction
 
-from mc import core, regs
+from mc import core, explore, regs
 from mc.ref import defs
 
 PROPERTY = "C02"
@@ -64,6 +64,9 @@ def shards(tier, seed):
         for b in range(8):
             out.append(("prefixes", nt, b, 8))
     out.append(("generated",))
+    out.append(("redef", 0, None))
+    for e in RD_EVENTS:
+        out.append(("redef", 4 if tier == "quick" else 5, list(e)))
     return out
 
 
@@ -432,6 +435,116 @@ def run_generated(acc):
     acc.sample({"clause": "generated", "registry": lines})
 
 
+# ----------------------------------------------------------------------------- (f) the written definitions change
+
+RD_LINES = ["kilo- = 1000 = k-", "ua = [A]", "ub = [B]", "inch = 2 * ua = in", "foot = 12 * inch", "mile = 5280 * foot", "speed = mile / ub",
+            "@context N", "    [A] -> [B]: value * 3 * ub / ua", "@end", "@context RD", "    foot = 10 * inch", "@end"]
+RD_EVENTS = [("warm",), ("redef", "inch = 3 * ua = in"), ("redef", "inch = 5 * ua = in"), ("redef", "foot = 7 * inch"), ("use", "N"), ("enable", "N"), ("enable", "RD"), ("disable",), ("within", "RD")]
+RD_PROBES = [({"foot": 1}, {"ua": 1}), ({"mile": 1}, {"ua": 1}), ({"mile": 1}, {"inch": 1}), ({"speed": 1}, {"ua": 1, "ub": -1}), ({"kilofoot": 1}, {"inch": 1}), ({"ua": 1}, {"foot": 1}), ({"in": 2}, {"foot": 2})]
+
+
+class _RD:
+    pass
+
+
+class RedefDriver(explore.Driver):
+    """the factor follows the definitions CURRENTLY written: a unit defined again (registry.define on an existing name, allowed
+    by default) or overlaid by a context while it is active. Histories of conversions, redefinitions and context
+    activations on a generated registry; after each, every probe equals the exact ratio the independent reader derives from
+    the text in force"""
+
+    def __init__(self):
+        self._models = {}
+
+    def fresh(self):
+        regs.clear_process_caches()
+        s = _RD()
+        s.reg = regs.tiny(RD_LINES, non_int_type="Fraction", on_redefinition="ignore")
+        s.redefs, s.stack = {}, []
+        return s
+
+    def events(self):
+        return list(RD_EVENTS)
+
+    def enabled(self, hist):
+        depth = 0
+        for e in hist:
+            depth += 1 if e[0] == "enable" else (-1 if e[0] == "disable" and depth else 0)
+        return [e for e in RD_EVENTS if not (e[0] == "redef" and depth)]
+
+    def outcome_oracle(self, acc, s, hist, outs):
+        pass
+
+    @staticmethod
+    def answers(r):
+        out = []
+        for a, b in RD_PROBES:
+            out.append(conv_out(lambda: r.convert(1, r.UnitsContainer(a), r.UnitsContainer(b))))
+            out.append(conv_out(lambda: r.Quantity(1, r.UnitsContainer(a)).to(r.UnitsContainer(b)).magnitude))
+        out.append(conv_out(lambda: r.get_root_units("mile")[0]))
+        out.append(conv_out(lambda: r.Quantity(1, "kilofoot").to_root_units().magnitude))
+        return out
+
+    def apply(self, s, ev):
+        r, k = s.reg, ev[0]
+        if k == "warm":
+            return [o[0] for o in self.answers(r)]
+        if k == "redef":
+            s.redefs[ev[1].split("=")[0].strip()] = ev[1]
+            return conv_out(lambda: r.define(ev[1]))[:1]
+        if k == "use":
+            return conv_out(lambda: str(r.Quantity(1, "ua").to("ub", ev[1]).magnitude))
+        if k == "enable":
+            s.stack.append(ev[1])
+            return conv_out(lambda: r.enable_contexts(ev[1]))[:1]
+        if k == "disable":
+            if s.stack:
+                s.stack.pop()
+            return conv_out(lambda: r.disable_contexts(1))[:1]
+        if k == "within":
+            def blk():
+                with r.context(ev[1]):
+                    return [str(o[1]) for o in self.answers(r)[:4]]
+            return conv_out(blk)
+        raise core.HarnessError(ev)
+
+    def fp(self, s, hist):
+        d = vars(s.reg)
+        return explore.fingerprint({k: d[k] for k in ("_units", "_cache", "_caches", "_context_units", "_active_ctx") if k in d})
+
+    def model(self, redefs, stack):
+        key = (tuple(sorted(redefs.items())), "RD" in stack)
+        if key not in self._models:
+            lines = []
+            for ln in RD_LINES[:7]:
+                n = ln.split("=")[0].strip()
+                if n == "foot" and "RD" in stack:
+                    ln = "foot = 10 * inch"
+                elif n in redefs:
+                    ln = redefs[n]
+                lines.append(ln)
+            self._models[key] = defs.read(lines)
+        return self._models[key]
+
+    def oracle(self, acc, s, hist, outs):
+        M = self.model(s.redefs, s.stack)
+        want = []
+        for a, b in RD_PROBES:
+            w = exact_ratio(M, a, b)
+            want += [w, w]
+        want.append(defs.Mono(M.root("mile").coef))
+        want.append(defs.Mono(M.root("foot").coef * 1000))
+        got = self.answers(s.reg)
+        names = [f"{api}({a} -> {b})" for a, b in RD_PROBES for api in ("convert", "Quantity.to")] + ["get_root_units(mile)", "to_root_units(kilofoot)"]
+        for n, w, o in zip(names, want, got):
+            acc.ev()
+            if o[0] != "ok" or not close(o[1], w, "Fraction"):
+                kinds = [e[0] for e in hist]
+                cause = "after-redefinition-and-context-switch" if "redef" in kinds and any(k in kinds for k in ("use", "enable", "within", "disable")) else ("after-redefinition" if "redef" in kinds else "context-overlay")
+                acc.violation(["redefined", n.split("(")[0], "factor-is-not-the-ratio-of-the-definitions-in-force", cause], {"history": [list(e) for e in hist], "probe": n, "redefined": dict(s.redefs), "contexts": list(s.stack)}, str(w.coef), show(o[1]) if o[0] == "ok" else o)
+        acc.sample({"clause": "redefined", "history": [list(e) for e in hist]}, limit=2)
+
+
 # ----------------------------------------------------------------------------- dispatch / replay
 
 
@@ -449,6 +562,10 @@ def run_shard(acc, shard, tier, seed):
         run_compound(acc, shard[1], shard[2], shard[3], tier)
     elif k == "generated":
         run_generated(acc)
+    elif k == "redef":
+        drv = RedefDriver()
+        first = None if shard[2] is None else tuple(shard[2])
+        explore.explore(drv, acc, shard[1], roots=[()] if first is None else [(first,)], oracle_on="all")
     else:
         raise core.HarnessError(str(shard))
 
@@ -460,7 +577,12 @@ def replay(rec):
     nt = case.get("nt", "Fraction")
     tier = rec.get("tier", "quick")
     acc = core.Acc(PROPERTY)
-    if site[0] == "unit-pair":
+    if site[0] == "redefined":
+        drv = RedefDriver()
+        hist = tuple(tuple(e) for e in case["history"])
+        st, outs = explore.run_history(drv, hist)
+        drv.oracle(acc, st, hist, outs)
+    elif site[0] == "unit-pair":
         for b in range(4):
             run_pairs(acc, nt, b, 4)
     elif site[0] == "prefixed-spelling":
@@ -491,3 +613,4 @@ MANIFEST = {
     "the Fraction registry (Python turns Fraction**0.5 into float). Compounds with more than 2 factors and units outside the 12-unit alphabet in compound position are outside the bound.",
     "ref": "DESIGN.md §4 C02",
 }
+MANIFEST["text"] += ' Redefinitions: BFS to depth 4 (5 thorough) over 9 events (warm conversions, three registry.define() redefinitions of existing units, per-call / enabled / with-block use of a context that redefines nothing and one that overlays a unit) on a generated registry; after every history 16 probes (convert, Quantity.to, get_root_units, to_root_units) equal the exact ratio the independent reader derives from the text in force.'
